@@ -508,6 +508,10 @@ func (ex *Exec) harnessPrim(fr *frame, st *State, fn *ssa.Function, args []Value
 		return ret(nil)
 	case "vNative":
 		return ret(term.False())
+	case "vAliases":
+		sv, isStr := args[0].(StringV)
+		bv, isSl := args[1].(SliceV)
+		return ret(term.Bool(isStr && isSl && sv.Alias != 0 && sv.Alias == bv.Obj))
 	case "vRecordGlobals":
 		ex.RecordGlobals = true
 		return ret(nil)
